@@ -78,6 +78,8 @@ func KindOf(obj runtime.Object) string {
 		return "Rollout"
 	case *v1beta1.BatchRelease:
 		return "BatchRelease"
+	case *rolloutv1alpha1.Rollout:
+		return "RolloutV1alpha1"
 	case *rolloutv1alpha1.TrafficRouting:
 		return "TrafficRouting"
 	case *autoscalingv2.HorizontalPodAutoscaler:
@@ -119,6 +121,8 @@ func copyInto(src, dst client.Object) {
 		s.DeepCopyInto(dst.(*v1beta1.Rollout))
 	case *v1beta1.BatchRelease:
 		s.DeepCopyInto(dst.(*v1beta1.BatchRelease))
+	case *rolloutv1alpha1.Rollout:
+		s.DeepCopyInto(dst.(*rolloutv1alpha1.Rollout))
 	case *rolloutv1alpha1.TrafficRouting:
 		s.DeepCopyInto(dst.(*rolloutv1alpha1.TrafficRouting))
 	case *autoscalingv2.HorizontalPodAutoscaler:
